@@ -169,6 +169,34 @@ def report_directed(k):
     return sg, dg
 
 
+def shared_value(k):
+    """several focus nodes reach the same failing value node through a property shape that carries a nested shape: equal
+    results for different focus nodes are still different results (own result node, own sh:result link, own text block)"""
+    sg, dg = Graph(), Graph()
+    PS = EX["SVP%d" % k]
+    # the property shape has the targets itself: one evaluation holds all its focus nodes, which share the value node
+    sg.add((PS, RDF.type, SH.PropertyShape)); sg.add((PS, SH.targetSubjectsOf, EX.p0)); sg.add((PS, SH.path, EX.p0))
+    if k // 4 % 2:      # ... and the same again one level down, below a node shape
+        S = EX["SV%d" % k]
+        sg.add((S, RDF.type, SH.NodeShape)); sg.add((S, SH.targetNode, EX.holder0)); sg.add((S, SH.property, PS))
+    kind = k % 4
+    if kind == 0:
+        q = BNode(); sg.add((PS, SH.property, q)); sg.add((q, SH.path, EX.p1)); sg.add((q, SH.minCount, Literal(1)))
+    elif kind == 1:
+        n = EX["SVN%d" % k]; sg.add((PS, SH.node, n)); sg.add((n, RDF.type, SH.NodeShape)); sg.add((n, SH["class"], EX.C0))
+    elif kind == 2:
+        q = BNode(); sg.add((PS, SH.property, q)); sg.add((q, SH.path, EX.p1)); sg.add((q, SH.datatype, rdflib.XSD.integer))
+        dg.add((EX.shared, EX.p1, Literal("not a number")))
+    else:
+        q = EX["SVQ%d" % k]; sg.add((PS, SH.property, q)); sg.add((q, SH.path, EX.p1)); sg.add((q, SH.minCount, Literal(1)))
+        sg.add((q, SH.severity, SH.Warning)); sg.add((q, SH.message, Literal("needs p1")))
+    for j in range(2 + k // 4 % 2):
+        dg.add((EX["holder%d" % j], EX.p0, EX.shared))
+    if k // 8 % 2:
+        dg.add((EX.holder0, EX.p0, EX.other))
+    return sg, dg
+
+
 def run(ctx, out):
     rng = random.Random(ctx.seed * 67867967 + 6)
     quick = ctx.tier == "quick"
@@ -209,6 +237,8 @@ def run(ctx, out):
         cases.append(("shared-labels:directed", sgd, dgd))
     for k in range(12 if quick else 60):
         cases.append(("report-directed:%d" % (k % 6), *report_directed(k)))
+    for k in range(8 if quick else 32):
+        cases.append(("shared-value:%d" % (k % 4), *shared_value(k)))
     combos = list(itertools.product((False, True), repeat=5))   # advanced, abort, infos, warnings, sparql
     out.rule = ("Core + composition generators x all 32 combinations of (advanced, abort_on_first, allow_infos, allow_warnings, sparql_mode) "
                 "[sampled 10 per case in quick, all in thorough] + inference {none, rdfs} x {Graph, Dataset}; non-trivial = distinct "
